@@ -13,6 +13,12 @@
 #pragma CPROVER check push
 #pragma CPROVER check disable "signed-overflow"
 #pragma CPROVER check disable "conversion"
+/* specification clauses only: every table access in a clause is guarded by its range condition in the clause itself;
+ * the memory-safety checks of the CODE are unaffected (they are generated from the function bodies) */
+#pragma CPROVER check disable "pointer"
+#pragma CPROVER check disable "pointer-primitive"
+#pragma CPROVER check disable "pointer-overflow"
+#pragma CPROVER check disable "bounds"
 
 #ifndef ZMAXTR
 #define ZMAXTR 2000          /* bound on the table length: only sizes the symbolic allocation */
@@ -43,30 +49,40 @@ extern size_t gz_hint;       /* ghost: the value the relaxed load of a hint retu
 /* type in force just before transition i */
 #define PREVTY(z, i) ((i) == 0 ? (size_t)DEFTY(z) : (size_t)TR(z, (i) - 1).type_index)
 /* WF at index i: its type and the previous type are sane; civil_sec / prev_civil_sec are the local readings of unix_time */
-#define WFI(z, i) ((i) < NTR(z) && TYOK(z, TR(z, i).type_index) && TYOK(z, PREVTY(z, i)) && \
+#define WFI(z, i) ((i) < NTR(z) && TR(z, i).unix_time > INT64_MIN && TYOK(z, TR(z, i).type_index) && TYOK(z, PREVTY(z, i)) && \
   OVALID(TR(z, i).civil_sec) && OVALID(TR(z, i).prev_civil_sec) && \
   OSEC(TR(z, i).civil_sec) == (Z)TR(z, i).unix_time + TY(z, TR(z, i).type_index).utc_offset + EPOCHSEC && \
   OSEC(TR(z, i).prev_civil_sec) == (Z)TR(z, i).unix_time - 1 + TY(z, PREVTY(z, i)).utc_offset + EPOCHSEC)
 /* t lies in the half-open interval of transition i */
 #define TBRACKET(z, i, t) ((i) + 1 < NTR(z) && TR(z, i).unix_time <= (t) && (t) < TR(z, (i) + 1).unix_time)
 /* r is the local reading of instant t in transition type k */
-#define LOCAL_IS(z, r, t, k) ((r).offset == TY(z, k).utc_offset && (r).is_dst == TY(z, k).is_dst && (r).abbr == ABBR(z, k) && \
-  OVALID((r).cs) && OSEC((r).cs) == (Z)(t) + TY(z, k).utc_offset + EPOCHSEC)
+#define LOCAL_IS_A(z, r, t, k) ((r).offset == TY(z, k).utc_offset && (r).is_dst == TY(z, k).is_dst && (r).abbr == ABBR(z, k))
+#define LOCAL_IS_B(z, r, t, k) (OVALID((r).cs))
+#define LOCAL_IS_C(z, r, t, k) (OSEC((r).cs) == (Z)(t) + TY(z, k).utc_offset + EPOCHSEC)
+#define LOCAL_IS(z, r, t, k) (LOCAL_IS_A(z, r, t, k) && LOCAL_IS_B(z, r, t, k) && LOCAL_IS_C(z, r, t, k))
 
 /* the epoch, and why every int64 instant (shifted by less than a day) has a representable civil second */
 #define lemma_epoch_REQ() (1)
-#define lemma_epoch_ENS() (VALIDD(1970, 1, 1) && DAYORD(1970, 1, 1) == 719528)
+#define EPOCH_CS ((fields){1970, 1, 1, 0, 0, 0})
+#define lemma_epoch_ENS() (VALIDD(1970, 1, 1) && DAYORD(1970, 1, 1) == 719528 && OSEC(EPOCH_CS) == EPOCHSEC)
 #define lemma_secrepr_REQ(u) (-((Z)1 << 64) < (Z)(u) && (Z)(u) < ((Z)1 << 64))
 #define lemma_secrepr_ENS(u) (REPR_second(u))
 
 /* ---- trusted library contracts (R14) ---- */
 /* std::upper_bound on a table sorted by unix_time (Load rejects unsorted tables) returns the end of the
  * unique bracket; stated for the ghost index: if gz_i brackets the target, that is the answer */
-const Transition* valg_upper_bound_Transition_ByUnixTime(const Transition* first, const Transition* last, const Transition* value)
-__CPROVER_requires(1)
-__CPROVER_ensures(__CPROVER_same_object(RV, first) && __CPROVER_POINTER_OFFSET(first) <= __CPROVER_POINTER_OFFSET(RV) && __CPROVER_POINTER_OFFSET(RV) <= __CPROVER_POINTER_OFFSET(last))
-__CPROVER_ensures((first[gz_i].unix_time <= value->unix_time && value->unix_time < first[gz_i + 1].unix_time) ? RV == first + gz_i + 1 : 1)
-__CPROVER_assigns();
+/* written as a body returning first + k (k arbitrary, constrained by assumptions) rather than as a contract: a contract's return
+ * value is an unstructured pointer, and CBMC then reads *--tr byte by byte with a division per byte */
+size_t nondet_size_t(void);
+static inline const Transition* valg_upper_bound_Transition_ByUnixTime(const Transition* first, const Transition* last, const Transition* value)
+{
+  const size_t n = (size_t)(last - first);
+  if (gz_i + 1 < n && first[gz_i].unix_time <= value->unix_time && value->unix_time < first[gz_i + 1].unix_time)
+    return first + (gz_i + 1);      /* the end of the (unique, by sortedness) bracket */
+  const size_t k = nondet_size_t();
+  __CPROVER_assume(k <= n);
+  return first + k;
+}
 
 size_t vatomic_load_hint(void)
 __CPROVER_requires(1)
@@ -78,23 +94,26 @@ __CPROVER_ensures(1)
 __CPROVER_assigns();
 
 /* ---- kernel ---- */
-/* pointer forms of the predicates (callers pass &TY(self,k) / &TR(self,i)) */
-#define TYOK_P(z, tt) (-86400 < (tt)->utc_offset && (tt)->utc_offset < 86400 && (tt)->abbr_index <= (z)->abbreviations_.size)
-#define LOCAL_IS_P(z, r, t, tt) ((r).offset == (tt)->utc_offset && (r).is_dst == (tt)->is_dst && (r).abbr == &(z)->abbreviations_.data[(tt)->abbr_index] && \
-  OVALID((r).cs) && OSEC((r).cs) == (Z)(t) + (tt)->utc_offset + EPOCHSEC)
+/* value forms of the predicates (const Transition& / const TransitionType& are passed by value) */
+#define TYOK_V(z, tt) (-86400 < (tt).utc_offset && (tt).utc_offset < 86400 && (tt).abbr_index <= (z)->abbreviations_.size)
+#define LOCAL_IS_V(z, r, t, tt) ((r).offset == (tt).utc_offset && (r).is_dst == (tt).is_dst && (r).abbr == &(z)->abbreviations_.data[(tt).abbr_index] && \
+  OVALID((r).cs) && OSEC((r).cs) == (Z)(t) + (tt).utc_offset + EPOCHSEC)
 
-absolute_lookup LocalTime_TransitionType(const TimeZoneInfo* self, int_fast64_t unix_time, const TransitionType* tt)
-__CPROVER_requires(__CPROVER_is_fresh(self, sizeof(TimeZoneInfo)) && __CPROVER_is_fresh(tt, sizeof(TransitionType)) && TYOK_P(self, tt))
-__CPROVER_ensures(LOCAL_IS_P(self, RV, unix_time, tt))
+absolute_lookup LocalTime_TransitionType(const TimeZoneInfo* self, int_fast64_t unix_time, TransitionType tt)
+__CPROVER_requires(__CPROVER_is_fresh(self, sizeof(TimeZoneInfo)) && TYOK_V(self, tt))
+__CPROVER_ensures(LOCAL_IS_V(self, RV, unix_time, tt))
 __CPROVER_assigns();
 
-/* tr is an entry of self's table whose type is sane and whose civil_sec is the local reading of its unix_time */
-#define TRWF_P(z, tr) ((tr)->type_index < NTY(z) && TYOK(z, (tr)->type_index) && OVALID((tr)->civil_sec) && \
-  OSEC((tr)->civil_sec) == (Z)(tr)->unix_time + TY(z, (tr)->type_index).utc_offset + EPOCHSEC)
-absolute_lookup LocalTime_Transition(const TimeZoneInfo* self, int_fast64_t unix_time, const Transition* tr)
-__CPROVER_requires(ZSHAPE_TY(self) && __CPROVER_is_fresh(tr, sizeof(Transition)) && TRWF_P(self, tr))
-__CPROVER_requires(FITS64((Z)unix_time - tr->unix_time))
-__CPROVER_ensures(LOCAL_IS(self, RV, unix_time, tr->type_index))
+/* tr is an entry whose type is sane and whose civil_sec is the local reading of its unix_time */
+#define TRWF_V(z, tr) ((tr).type_index < NTY(z) && TYOK(z, (tr).type_index) && OVALID((tr).civil_sec) && \
+  OSEC((tr).civil_sec) == (Z)(tr).unix_time + TY(z, (tr).type_index).utc_offset + EPOCHSEC)
+absolute_lookup LocalTime_Transition(const TimeZoneInfo* self, int_fast64_t unix_time, Transition tr)
+__CPROVER_requires(ZSHAPE_TY(self))
+__CPROVER_requires(tr.type_index < NTY(self) && TYOK(self, tr.type_index))
+__CPROVER_requires(OVALID(tr.civil_sec))
+__CPROVER_requires(OSEC(tr.civil_sec) == (Z)tr.unix_time + TY(self, tr.type_index).utc_offset + EPOCHSEC)
+__CPROVER_requires(FITS64((Z)unix_time - tr.unix_time))
+__CPROVER_ensures(LOCAL_IS(self, RV, unix_time, tr.type_index))
 __CPROVER_assigns();
 
 /* C01 (kernel): the reading reported for instant tp is that of the latest transition at or before tp
@@ -109,9 +128,15 @@ __CPROVER_requires(TR(self, 0).unix_time < 0 && TR(self, NTR(self) - 1).unix_tim
 __CPROVER_requires(BT_MIDDLE(self, tp) ? (TBRACKET(self, gz_i, tp) && WFI(self, gz_i) && FITS64((Z)tp - TR(self, gz_i).unix_time)) : 1)
 /* uniqueness of the bracket (instance of sortedness): a hint that brackets tp is the same bracket */
 __CPROVER_requires((0 < gz_hint && gz_hint < NTR(self) && TR(self, gz_hint - 1).unix_time <= tp && tp < TR(self, gz_hint).unix_time) ? gz_hint - 1 == gz_i : 1)
-__CPROVER_ensures(tp < TR(self, 0).unix_time ? LOCAL_IS(self, RV, tp, DEFTY(self)) :
-                  (tp >= TR(self, NTR(self) - 1).unix_time ? LOCAL_IS(self, RV, tp, TR(self, NTR(self) - 1).type_index) :
-                   LOCAL_IS(self, RV, tp, TR(self, gz_i).type_index)))
+__CPROVER_ensures(tp < TR(self, 0).unix_time ? LOCAL_IS_A(self, RV, tp, DEFTY(self)) : 1)
+__CPROVER_ensures(tp >= TR(self, NTR(self) - 1).unix_time ? LOCAL_IS_A(self, RV, tp, TR(self, NTR(self) - 1).type_index) : 1)
+__CPROVER_ensures(BT_MIDDLE(self, tp) ? LOCAL_IS_A(self, RV, tp, TR(self, gz_i).type_index) : 1)
+__CPROVER_ensures(tp < TR(self, 0).unix_time ? LOCAL_IS_B(self, RV, tp, DEFTY(self)) : 1)
+__CPROVER_ensures(tp >= TR(self, NTR(self) - 1).unix_time ? LOCAL_IS_B(self, RV, tp, TR(self, NTR(self) - 1).type_index) : 1)
+__CPROVER_ensures(BT_MIDDLE(self, tp) ? LOCAL_IS_B(self, RV, tp, TR(self, gz_i).type_index) : 1)
+__CPROVER_ensures(tp < TR(self, 0).unix_time ? LOCAL_IS_C(self, RV, tp, DEFTY(self)) : 1)
+__CPROVER_ensures(tp >= TR(self, NTR(self) - 1).unix_time ? LOCAL_IS_C(self, RV, tp, TR(self, NTR(self) - 1).type_index) : 1)
+__CPROVER_ensures(BT_MIDDLE(self, tp) ? LOCAL_IS_C(self, RV, tp, TR(self, gz_i).type_index) : 1)
 __CPROVER_assigns();
 
 
@@ -138,26 +163,30 @@ __CPROVER_ensures(UNIQ_IS(RV, (Z)unix_time))
 __CPROVER_assigns();
 
 /* the two readings of cs around transition *tr, as the code computes them from the table entry */
-#define PRE_OF(tr, cs) ((Z)(tr)->unix_time - 1 + (OSEC(cs) - OSEC((tr)->prev_civil_sec)))
-#define POST_OF(tr, cs) ((Z)(tr)->unix_time + (OSEC(cs) - OSEC((tr)->civil_sec)))
-#define TR_CIVIL_OK(tr) (OVALID((tr)->civil_sec) && OVALID((tr)->prev_civil_sec))
-civil_lookup MakeSkipped(const Transition* tr, fields cs)
-__CPROVER_requires(__CPROVER_is_fresh(tr, sizeof(Transition)) && TR_CIVIL_OK(tr) && OVALID(cs))
-__CPROVER_requires(FITS64(PRE_OF(tr, cs)) && FITS64(POST_OF(tr, cs)) && FITS64(OSEC(cs) - OSEC(tr->prev_civil_sec)) && FITS64(OSEC(tr->civil_sec) - OSEC(cs)))
-__CPROVER_ensures(RV.kind == KIND_SKIPPED && (Z)RV.pre == PRE_OF(tr, cs) && RV.trans == tr->unix_time && (Z)RV.post == POST_OF(tr, cs))
+#define PRE_OF(tr, cs) ((Z)(tr).unix_time - 1 + (OSEC(cs) - OSEC((tr).prev_civil_sec)))
+#define POST_OF(tr, cs) ((Z)(tr).unix_time + (OSEC(cs) - OSEC((tr).civil_sec)))
+#define TR_CIVIL_OK(tr) (OVALID((tr).civil_sec) && OVALID((tr).prev_civil_sec) && (tr).unix_time > INT64_MIN)
+civil_lookup MakeSkipped(Transition tr, fields cs)
+__CPROVER_requires(TR_CIVIL_OK(tr) && OVALID(cs))
+__CPROVER_requires(FITS64(PRE_OF(tr, cs)) && FITS64(POST_OF(tr, cs)) && FITS64(OSEC(cs) - OSEC(tr.prev_civil_sec)) && FITS64(OSEC(tr.civil_sec) - OSEC(cs)))
+__CPROVER_ensures(RV.kind == KIND_SKIPPED && (Z)RV.pre == PRE_OF(tr, cs) && RV.trans == tr.unix_time && (Z)RV.post == POST_OF(tr, cs))
 __CPROVER_assigns();
-civil_lookup MakeRepeated(const Transition* tr, fields cs)
-__CPROVER_requires(__CPROVER_is_fresh(tr, sizeof(Transition)) && TR_CIVIL_OK(tr) && OVALID(cs))
-__CPROVER_requires(FITS64(PRE_OF(tr, cs)) && FITS64(POST_OF(tr, cs)) && FITS64(OSEC(tr->prev_civil_sec) - OSEC(cs)) && FITS64(OSEC(cs) - OSEC(tr->civil_sec)))
-__CPROVER_ensures(RV.kind == KIND_REPEATED && (Z)RV.pre == PRE_OF(tr, cs) && RV.trans == tr->unix_time && (Z)RV.post == POST_OF(tr, cs))
+civil_lookup MakeRepeated(Transition tr, fields cs)
+__CPROVER_requires(TR_CIVIL_OK(tr) && OVALID(cs))
+__CPROVER_requires(FITS64(PRE_OF(tr, cs)) && FITS64(POST_OF(tr, cs)) && FITS64(OSEC(tr.prev_civil_sec) - OSEC(cs)) && FITS64(OSEC(cs) - OSEC(tr.civil_sec)))
+__CPROVER_ensures(RV.kind == KIND_REPEATED && (Z)RV.pre == PRE_OF(tr, cs) && RV.trans == tr.unix_time && (Z)RV.post == POST_OF(tr, cs))
 __CPROVER_assigns();
 
 /* std::upper_bound by civil time: the end of the unique civil bracket (table sorted by civil_sec: Load checks it) */
-const Transition* valg_upper_bound_Transition_ByCivilTime(const Transition* first, const Transition* last, const Transition* value)
-__CPROVER_requires(1)
-__CPROVER_ensures(__CPROVER_same_object(RV, first) && __CPROVER_POINTER_OFFSET(first) <= __CPROVER_POINTER_OFFSET(RV) && __CPROVER_POINTER_OFFSET(RV) <= __CPROVER_POINTER_OFFSET(last))
-__CPROVER_ensures((gz_j >= 1 && !LEXLT(value->civil_sec, first[gz_j - 1].civil_sec) && LEXLT(value->civil_sec, first[gz_j].civil_sec)) ? RV == first + gz_j : 1)
-__CPROVER_assigns();
+static inline const Transition* valg_upper_bound_Transition_ByCivilTime(const Transition* first, const Transition* last, const Transition* value)
+{
+  const size_t n = (size_t)(last - first);
+  if (gz_j >= 1 && gz_j < n && !LEXLT(value->civil_sec, first[gz_j - 1].civil_sec) && LEXLT(value->civil_sec, first[gz_j].civil_sec))
+    return first + gz_j;
+  const size_t k = nondet_size_t();
+  __CPROVER_assume(k <= n);
+  return first + k;
+}
 
 /* cs lies in the civil bracket ending at transition j:  tr[j-1].civil_sec <= cs < tr[j].civil_sec */
 #define CBRACKET(z, j, cs) (1 <= (j) && (j) < NTR(z) && !LEXLT(cs, TR(z, (j) - 1).civil_sec) && LEXLT(cs, TR(z, j).civil_sec))
@@ -177,13 +206,13 @@ __CPROVER_requires((!MT_BEFORE(self, cs) && !MT_AFTER(self, cs)) ? (CBRACKET(sel
 __CPROVER_requires((0 < gz_hint && gz_hint < NTR(self) && !LEXLT(cs, TR(self, gz_hint - 1).civil_sec) && LEXLT(cs, TR(self, gz_hint).civil_sec)) ? gz_hint == gz_j : 1)
 /* before the first transition */
 __CPROVER_ensures((MT_BEFORE(self, cs) && !LEXLT(TR(self, 0).prev_civil_sec, cs)) ? UNIQ_IS(RV, SAT64(READ_IN(cs, TY(self, DEFTY(self)).utc_offset))) : 1)
-__CPROVER_ensures((MT_BEFORE(self, cs) && LEXLT(TR(self, 0).prev_civil_sec, cs)) ? (RV.kind == KIND_SKIPPED && (Z)RV.pre == PRE_OF(&TR(self, 0), cs) && RV.trans == TR(self, 0).unix_time && (Z)RV.post == POST_OF(&TR(self, 0), cs)) : 1)
+__CPROVER_ensures((MT_BEFORE(self, cs) && LEXLT(TR(self, 0).prev_civil_sec, cs)) ? (RV.kind == KIND_SKIPPED && (Z)RV.pre == PRE_OF(TR(self, 0), cs) && RV.trans == TR(self, 0).unix_time && (Z)RV.post == POST_OF(TR(self, 0), cs)) : 1)
 /* after the last transition */
 __CPROVER_ensures((MT_AFTER(self, cs) && LEXLT(TR(self, NTR(self) - 1).prev_civil_sec, cs)) ? UNIQ_IS(RV, SAT64(READ_IN(cs, TY(self, TR(self, NTR(self) - 1).type_index).utc_offset))) : 1)
-__CPROVER_ensures((MT_AFTER(self, cs) && !LEXLT(TR(self, NTR(self) - 1).prev_civil_sec, cs)) ? (RV.kind == KIND_REPEATED && (Z)RV.pre == PRE_OF(&TR(self, NTR(self) - 1), cs) && RV.trans == TR(self, NTR(self) - 1).unix_time && (Z)RV.post == POST_OF(&TR(self, NTR(self) - 1), cs)) : 1)
+__CPROVER_ensures((MT_AFTER(self, cs) && !LEXLT(TR(self, NTR(self) - 1).prev_civil_sec, cs)) ? (RV.kind == KIND_REPEATED && (Z)RV.pre == PRE_OF(TR(self, NTR(self) - 1), cs) && RV.trans == TR(self, NTR(self) - 1).unix_time && (Z)RV.post == POST_OF(TR(self, NTR(self) - 1), cs)) : 1)
 /* between two transitions: skipped at j, repeated at j-1, or unique in the type of j-1 */
-__CPROVER_ensures((!MT_BEFORE(self, cs) && !MT_AFTER(self, cs) && LEXLT(TR(self, gz_j).prev_civil_sec, cs)) ? (RV.kind == KIND_SKIPPED && (Z)RV.pre == PRE_OF(&TR(self, gz_j), cs) && RV.trans == TR(self, gz_j).unix_time && (Z)RV.post == POST_OF(&TR(self, gz_j), cs)) : 1)
-__CPROVER_ensures((!MT_BEFORE(self, cs) && !MT_AFTER(self, cs) && !LEXLT(TR(self, gz_j).prev_civil_sec, cs) && !LEXLT(TR(self, gz_j - 1).prev_civil_sec, cs)) ? (RV.kind == KIND_REPEATED && (Z)RV.pre == PRE_OF(&TR(self, gz_j - 1), cs) && RV.trans == TR(self, gz_j - 1).unix_time && (Z)RV.post == POST_OF(&TR(self, gz_j - 1), cs)) : 1)
+__CPROVER_ensures((!MT_BEFORE(self, cs) && !MT_AFTER(self, cs) && LEXLT(TR(self, gz_j).prev_civil_sec, cs)) ? (RV.kind == KIND_SKIPPED && (Z)RV.pre == PRE_OF(TR(self, gz_j), cs) && RV.trans == TR(self, gz_j).unix_time && (Z)RV.post == POST_OF(TR(self, gz_j), cs)) : 1)
+__CPROVER_ensures((!MT_BEFORE(self, cs) && !MT_AFTER(self, cs) && !LEXLT(TR(self, gz_j).prev_civil_sec, cs) && !LEXLT(TR(self, gz_j - 1).prev_civil_sec, cs)) ? (RV.kind == KIND_REPEATED && (Z)RV.pre == PRE_OF(TR(self, gz_j - 1), cs) && RV.trans == TR(self, gz_j - 1).unix_time && (Z)RV.post == POST_OF(TR(self, gz_j - 1), cs)) : 1)
 __CPROVER_ensures((!MT_BEFORE(self, cs) && !MT_AFTER(self, cs) && !LEXLT(TR(self, gz_j).prev_civil_sec, cs) && LEXLT(TR(self, gz_j - 1).prev_civil_sec, cs)) ? UNIQ_IS(RV, READ_IN(cs, TY(self, TR(self, gz_j - 1).type_index).utc_offset)) : 1)
 __CPROVER_assigns();
 
